@@ -7,8 +7,14 @@ Protocol (one case = a HISTORY over several Ribosome instances):
                                                              item = <kind><str(item)>[/<key>~<value>]*
   fenv (<set>:<filter>:<var>:o:<result> | <set>:<filter>:<var>:r:<class>)*   (rewritten by run_impl: the filters a
                                               set gives = builtin snapshot + the set's custom ones, applied to the values)
-  new <id> <strict> <set>         Ribosome(strict=…, filters=<custom filters of the set>) — stays alive for the case
+  new <id> <strict> <set> (<key>:<mrnaName>:<sequence>)*
+                                  Ribosome(strict=…, filters=<custom filters of the set>, templates={key: mRNA(sequence,
+                                  name=mrnaName)}) — stays alive for the case; equal (mrnaName, sequence) = the same mRNA object
   tmpl <id> <name> <sequence>     create_template on that instance (re-registration allowed)
+  reg <id> <name|-> <mrnaName|-> <sequence>    register_template(mRNA(sequence, name=mrnaName), name=name or None)
+                                  -> ok | raise:ValueError (no name at all)
+  put <id> <key> <mrnaName|-> <sequence>       instance.templates[key] = mRNA(sequence, name=mrnaName)
+  The registry the caller supplied (key -> sequence) is what includes and translate(name) are judged against.
   render <id> <sequence>          -> ok <text> <warned names> | raise:<Class>      (synthesize)
   translate <id> <name>
 """
@@ -302,7 +308,7 @@ class C12(Prop):
     id = "C12"
     title = "Template rendering follows the documented grammar; bound values stay data"
     fixed_prefix = 1
-    quick_budget = 1500
+    quick_budget = 1200
     thorough_budget = 24000
     quick_deadline_s = 100
     thorough_deadline_s = 800
@@ -397,11 +403,16 @@ class C12(Prop):
         return ctx
 
     def hcase(self, ctx, ops, note=""):
-        """ops: ("new", id, strict, set) | ("tmpl", id, name, text) | ("render", id, text) | ("translate", id, name)
+        """ops: ("new", id, strict, set[, [(key, mrnaName, text)…]]) | ("reg", id, name, mrnaName, text)
+        | ("put", id, key, mrnaName, text) | ("tmpl", id, name, text) | ("render", id, text) | ("translate", id, name)
         | ("ctx", dict)"""
         lines = ["env - - - -", enc_ctx(ctx), "fenv"]
         for o in ops:
-            if o[0] == "new": lines.append(f"new {o[1]} {int(o[2])} {o[3]}")
+            if o[0] == "new":
+                ents = "".join(f" {hexs(k)}:{hexs(mn)}:{hexs(sq)}" for k, mn, sq in (o[4] if len(o) > 4 else []))
+                lines.append(f"new {o[1]} {int(o[2])} {o[3]}" + ents)
+            elif o[0] == "reg": lines.append(f"reg {o[1]} {hexs(o[2])} {hexs(o[3])} {hexs(o[4])}")
+            elif o[0] == "put": lines.append(f"put {o[1]} {hexs(o[2])} {hexs(o[3])} {hexs(o[4])}")
             elif o[0] == "tmpl": lines.append(f"tmpl {o[1]} {hexs(o[2])} {hexs(o[3])}")
             elif o[0] == "render": lines.append(f"render {o[1]} {hexs(o[2])}")
             elif o[0] == "translate": lines.append(f"translate {o[1]} {hexs(o[2])}")
@@ -436,12 +447,38 @@ class C12(Prop):
             ctx = self._ctx(R, hostile)
             insts, ops = [], []
 
+            alias_src = None
+            if names and R.random() < 0.3:              # the same template (one mRNA object) under a second key
+                k = R.randrange(len(names))
+                alias_src = names[k]
+                templates.append(("al", templates[k][1]))
+                if not malformed:
+                    tops.append(pr(self._tmpl(R, names + ["al"], braces)))
+
+            def mname(key):
+                return R.choice([key, key, key + "_v2", "", "other", "t0"])
+
+            def regop(i, key, text):
+                """one of the ways to get a template into a live instance under `key`"""
+                w = R.random()
+                if w < 0.4: return ("tmpl", i, key, text)
+                if w < 0.6: return ("reg", i, key, mname(key), text)          # register_template(t, name=key)
+                if w < 0.75: return ("reg", i, "", key, text)                 # register_template(t), t.name == key
+                return ("put", i, key, mname(key), text)                     # rb.templates[key] = t
+
             def mk():
                 i = len(insts)
                 strict, st = R.random() < 0.3, R.choice(SETS)
                 insts.append((i, strict, st))
-                ops.append(("new", i, strict, st))
-                ops.extend(("tmpl", i, nm_, s_) for nm_, s_ in templates)
+                via_ctor = R.random() < 0.5
+                ents, later = [], []
+                for nm_, s_ in templates:
+                    if via_ctor and R.random() < 0.8:
+                        ents.append((nm_, "shared" if nm_ in ("al", alias_src) else mname(nm_), s_))
+                    else:
+                        later.append(regop(i, nm_, s_))
+                ops.append(("new", i, strict, st, ents))
+                ops.extend(later)
             mk()
             for _j in range(R.choice([1, 2, 2, 3, 4, 6])):
                 if len(insts) < 3 and R.random() < 0.35:
@@ -455,8 +492,10 @@ class C12(Prop):
                 if names and R.random() < 0.15:      # re-register an included template (maybe after a render that raised)
                     k = R.randrange(len(names))
                     text = "ok" if R.random() < 0.4 else pr(self._tmpl(R, names[:k], braces))
-                    ops.append(("tmpl", i, names[k], text))
+                    ops.append(regop(i, names[k], text))
                     ops.append(("render", i, R.choice(tops)))
+                if R.random() < 0.03:
+                    ops.append(("reg", i, "", "", "nameless"))           # no name at all: ValueError, registry unchanged
                 if R.random() < 0.08:
                     ops.append(("ctx", self._ctx(R, hostile)))
             yield self.hcase(ctx, ops, "malformed" if malformed else "hostile values" if hostile else "delimiter-free values")
@@ -532,8 +571,31 @@ class C12(Prop):
                     ops += [("ctx", good_ctx), ("render", 0, top), ("translate", 0, "page")]
                 ops += [("tmpl", 0, "hdr", "<{{b}}>"), ("render", 0, top), ("translate", 0, "page"), ("render", 0, "{{>hdr}}")]
                 hist.append(self.hcase({"a": 5, "b": "B"}, ops, "a render that raised inside an include must leave no trace"))
+        # registration probes: every way of getting templates into an instance, keys equal to / different from the
+        # mRNA's own name, aliases, nameless values; includes and translate(name) resolve by the caller's key
+        regs = []
+        lib = [("header", "header_compact", "[{{title|untitled}}]"), ("footer", "footer_legal", "(c) {{year}} {{?company}}"),
+               ("section", "section_v2", "{{>header}}|{{#each points}}* {{.}};{{/each}}"),
+               ("page", "page", "{{>section}}{{#if draft}}DRAFT{{#else}}FINAL{{/if}} {{>footer}}{{>nosuch}}{{>header_compact}}")]
+        rctx = {"title": "Q3", "year": 2026, "points": ["up", "down"], "draft": False}
+        looks = [("translate", 0, "page"), ("translate", 0, "header"), ("translate", 0, "header_compact"),
+                 ("render", 0, "{{>section}}/{{>hdr2}}/{{>footer_legal}}"), ("translate", 0, "hdr2")]
+        for variant in ("key", "own", "none"):
+            ents = [(k, {"key": k, "own": mn, "none": ""}[variant], sq) for k, mn, sq in lib]
+            alias = [("hdr2", ents[0][1], ents[0][2])]
+            for strict in (False, True):
+                regs.append(self.hcase(rctx, [("new", 0, strict, "none", ents + alias)] + looks, "constructor templates= mapping"))
+                regs.append(self.hcase(rctx, [("new", 0, strict, "none")] + [("reg", 0, k, mn, sq) for k, mn, sq in ents + alias]
+                                       + looks, "register_template(t, name=key)"))
+                regs.append(self.hcase(rctx, [("new", 0, strict, "none")] + [("put", 0, k, mn, sq) for k, mn, sq in ents + alias]
+                                       + looks, "direct assignment to .templates"))
+                regs.append(self.hcase(rctx, [("new", 0, strict, "none", ents[:2])] + [("reg", 0, "", mn or k, sq) for k, mn, sq in ents[2:]]
+                                       + [("tmpl", 0, "hdr2", ents[0][2]), ("reg", 0, "", "", "x")] + looks
+                                       + [("put", 0, "header", "zz", "<H>"), ("translate", 0, "page"), ("tmpl", 0, "page", "P{{>header}}"),
+                                          ("translate", 0, "page")], "mixed ways, re-registration, nameless register"))
         return [{"name": "every single construct x binding state x strictness", "cases": cases},
                 {"name": "pass-order probes", "cases": probes},
+                {"name": "registration probes (constructor mapping, register_template, create_template, direct assignment)", "cases": regs},
                 {"name": "history probes (several instances, renders after errors, re-registration)", "cases": hist}]
 
     # --- implementation -----------------------------------------------------------------------------------
@@ -565,7 +627,7 @@ class C12(Prop):
         if dict(m.Ribosome.BUILTIN_FILTERS) != self.builtin:
             m.Ribosome.BUILTIN_FILTERS.clear()
             m.Ribosome.BUILTIN_FILTERS.update(self.builtin)
-        sets = sorted({l.split()[3] for l in lines if l.startswith("new ") and len(l.split()) == 4 and l.split()[3] in CUSTOM})
+        sets = sorted({l.split()[3] for l in lines if l.startswith("new ") and len(l.split()) >= 4 and l.split()[3] in CUSTOM})
         if lines and lines[0].startswith("env"):
             allf = [f for st in sets for f in self.given(st)]
             lines[0] = self._env_line(self._strings_of(lines[1:]) + list(self.marker) + allf, sets)
@@ -596,13 +658,36 @@ class C12(Prop):
                             ents.append(f"{st}:{hexs(f)}:{hexs(n)}:{ent[0]}:{hexs(ent[1])}")
                 lines[idx] = " ".join(["fenv"] + ents)
                 obs.append("ok")
-            elif op == "new" and len(t) == 4 and t[3] in CUSTOM:
+            elif op == "new" and len(t) >= 4 and t[3] in CUSTOM:
                 custom = dict(CUSTOM[t[3]])
-                insts[t[1]] = m.Ribosome(silent=True, strict=t[2] == "1", filters=custom or None)
+                objs, mapping = {}, {}
+                for e in t[4:]:
+                    k, mn, sq = (unhexs(x) for x in e.split(":"))
+                    if (mn, sq) not in objs:
+                        objs[(mn, sq)] = m.mRNA(sequence=sq, name=mn)
+                    mapping[k] = objs[(mn, sq)]
+                try:
+                    insts[t[1]] = m.Ribosome(silent=True, strict=t[2] == "1", filters=custom or None,
+                                             templates=mapping or None)
+                    obs.append("ok")
+                except Exception as e:
+                    insts.pop(t[1], None)
+                    obs.append(f"raise:{type(e).__name__}")
+            elif op == "reg" and len(t) == 5 and t[1] in insts:
+                try:
+                    insts[t[1]].register_template(m.mRNA(sequence=unhexs(t[4]), name=unhexs(t[3])), name=unhexs(t[2]) or None)
+                    obs.append("ok")
+                except Exception as e:
+                    obs.append(f"raise:{type(e).__name__}")
+            elif op == "put" and len(t) == 5 and t[1] in insts:
+                insts[t[1]].templates[unhexs(t[2])] = m.mRNA(sequence=unhexs(t[4]), name=unhexs(t[3]))
                 obs.append("ok")
             elif op == "tmpl" and len(t) == 4 and t[1] in insts:
-                insts[t[1]].create_template(unhexs(t[3]), unhexs(t[2]))
-                obs.append("ok")
+                try:
+                    insts[t[1]].create_template(unhexs(t[3]), unhexs(t[2]))
+                    obs.append("ok")
+                except Exception as e:
+                    obs.append(f"raise:{type(e).__name__}")
             elif op in ("render", "translate") and len(t) == 3 and t[1] in insts:
                 rb = insts[t[1]]
                 try:
@@ -640,8 +725,17 @@ class C12(Prop):
                 for e in t[1:]:
                     st, f, n, k, r = e.split(":")
                     fenv.setdefault(st, {})[(unhexs(f), unhexs(n))] = (k, unhexs(r))
-            elif op == "new" and len(t) == 4 and t[3] in CUSTOM:
+            elif op == "new" and len(t) >= 4 and t[3] in CUSTOM:
                 insts[t[1]] = {"strict": t[2] == "1", "set": t[3], "templates": {}}
+                for e in t[4:]:
+                    k, _mn, sq = (unhexs(x) for x in e.split(":"))
+                    insts[t[1]]["templates"][k] = sq                   # the caller's key, whatever the mRNA calls itself
+            elif op == "reg" and len(t) == 5 and t[1] in insts:
+                key = unhexs(t[2]) or unhexs(t[3])                      # name= overrides the template's own name
+                if key:
+                    insts[t[1]]["templates"][key] = unhexs(t[4])
+            elif op == "put" and len(t) == 5 and t[1] in insts:
+                insts[t[1]]["templates"][unhexs(t[2])] = unhexs(t[4])
             elif op == "tmpl" and len(t) == 4 and t[1] in insts:
                 insts[t[1]]["templates"][unhexs(t[2])] = unhexs(t[3])
             elif op in ("render", "translate") and len(t) == 3 and t[1] in insts:
@@ -764,8 +858,10 @@ class C12(Prop):
                         _st, f, n, k, r = e.split(":")
                         if k == "o" and has_brace(unhexs(r)):
                             return FINDING
-                elif (op == "tmpl" and len(t) == 4) or (op == "render" and len(t) == 3):
-                    for tok in tokenize(unhexs(t[3] if op == "tmpl" else t[2])):
+                elif (op in ("tmpl", "new") and len(t) >= 4) or (op == "render" and len(t) == 3) or (op in ("reg", "put") and len(t) == 5):
+                    srcs = ([unhexs(e.split(":")[2]) for e in t[4:]] if op == "new" else
+                            [unhexs(t[3] if op == "tmpl" else t[4] if op in ("reg", "put") else t[2])])
+                    for tok in (tk for src_ in srcs for tk in tokenize(src_)):
                         if tok[0] == "pipe" and has_brace(tok[2]):
                             return FINDING
                         if tok[0] == "text":
